@@ -1175,8 +1175,8 @@ def run(ctx: Ctx) -> None:
             for r in (a2, b2):
                 for style in STYLES:
                     u.objects(r, style)
-        except MachineryError:
-            skipped += 1
+        except (MachineryError, TypeError):     # TypeError: Python itself cannot write it (typing.Union hashes its members,
+            skipped += 1                         # also inside a TypeVar bound / constraint)
             continue
         rpairs.append((a2, b2))
     chunks = [rpairs[i: i + 1500] for i in range(0, len(rpairs), 1500)]
